@@ -52,6 +52,8 @@ func main() {
 		oracle(os.Args[2:])
 	case "replay":
 		replay(os.Args[2:])
+	case "lib":
+		libMode(os.Args[2:])
 	case "pools":
 		p := loadPools()
 		for i, n := range p.textN {
